@@ -72,6 +72,9 @@ func ValidateAgainstSingleSchema(values Values, schemaJSON []byte) (reterr error
 	slog.Debug("unmarshalled JSON schema", "schema", schemaJSON)
 
 	compiler := jsonschema.NewCompiler()
+	// The schema is chart content: it must not be able to pull in files of
+	// the host (the compiler's default loader resolves file:// references).
+	compiler.UseLoader(noExternalLoader{})
 	err = compiler.AddResource("file:///values.schema.json", schema)
 	if err != nil {
 		return err
@@ -88,6 +91,14 @@ func ValidateAgainstSingleSchema(values Values, schemaJSON []byte) (reterr error
 	}
 
 	return nil
+}
+
+// noExternalLoader refuses every schema resource that is not part of the
+// chart's own values.schema.json.
+type noExternalLoader struct{}
+
+func (noExternalLoader) Load(url string) (any, error) {
+	return nil, fmt.Errorf("reference to external schema %q is not allowed", url)
 }
 
 // Note, JSONSchemaValidationError is used to wrap the error from the underlying
